@@ -155,3 +155,146 @@ Example c19_nonvacuous :
   conflicts_r (s2b "Array(Int32)") (s2b "Array(Int64)") = rok true /\
   conflicts_r (s2b "Decimal(76, 38)") (s2b "Decimal256") = rok false.
 Proof. vm_compute. repeat split. Qed.
+
+(* ======== the same, over the functions TRANSLATED from /repo/proto/column.go on this run (C19x) ========
+   gen/TypeFuns.v is written by translator/gostr.go from the Go source of ColumnType.Base, Elem, isDecimalN,
+   decimalDowncast, normalizeCommas, Conflicts and IsArray on every run ([go_Base] ... [go_Conflicts]; a slice
+   expression is Go's bounds check, [Crash] = panic; Conflicts recurses on fuel = S (length of the receiver)).
+   If the source changes its meaning, the equations below stop being provable and this file no longer compiles. *)
+From CH Require Import gen.TypeFuns proofs.TypeFunsProofs.
+
+(* every translated function is the hand model of model/TypeStr.v, for all byte strings *)
+Theorem type_functions_are_source :
+  (forall c, go_Base c = base_r c) /\
+  (forall c, go_Elem c = elem_r c) /\
+  (forall c, go_isDecimalN c = is_decimal_n c) /\
+  (forall c, go_decimalDowncast c = decimal_downcast_r c) /\
+  (forall c, go_normalizeCommas c = normalize_commas c) /\
+  (forall c, go_IsArray c = is_array c) /\
+  (forall rec c b, go_Conflicts_step rec c b = conf_step rec c b) /\
+  (forall c b, go_Conflicts c b = conflicts_r c b).
+Proof. exact type_functions_are_source_proof. Qed.
+Print Assumptions type_functions_are_source.
+
+(* the source's Base, Elem and decimalDowncast never slice out of bounds; Elem is strictly shorter *)
+Theorem source_base_elem_no_panic : forall c,
+  (exists B, go_Base c = rok B) /\
+  (exists e, go_Elem c = rok e /\ (c <> [] -> (length e < length c)%nat)) /\
+  (exists d, go_decimalDowncast c = rok d).
+Proof. exact src_base_elem_no_panic. Qed.
+Print Assumptions source_base_elem_no_panic.
+
+(* the source's Conflicts returns a value on every pair: no panic, and the fuel of the translation is never
+   exhausted (any fuel above the length of either argument gives the same result) *)
+Theorem source_conflicts_no_panic : forall c b, exists r, go_Conflicts c b = rok r.
+Proof. exact go_Conflicts_no_panic. Qed.
+Print Assumptions source_conflicts_no_panic.
+
+Theorem source_conflicts_fuel_enough : forall n c b,
+  (length c < n \/ length b < n)%nat -> go_Conflicts_fuel n c b = go_Conflicts c b.
+Proof. exact go_Conflicts_fuel_enough. Qed.
+Print Assumptions source_conflicts_fuel_enough.
+
+(* Conflicts is the translated body applied to itself *)
+Theorem source_conflicts_equation : forall c b, go_Conflicts c b = go_Conflicts_step go_Conflicts c b.
+Proof. exact go_Conflicts_equation. Qed.
+Print Assumptions source_conflicts_equation.
+
+Theorem source_conflicts_refl : forall c, go_Conflicts c c = rok false.
+Proof. exact src_conflicts_refl. Qed.
+Print Assumptions source_conflicts_refl.
+
+Theorem source_conflicts_sym : forall c b, go_Conflicts c b = go_Conflicts b c.
+Proof. exact src_conflicts_sym. Qed.
+Print Assumptions source_conflicts_sym.
+
+(* documented equivalences; `go_Base c = rok B` reads "c.Base() returns B" *)
+Theorem source_equiv_enum8_int8 : forall c, go_Base c = rok T_Enum8 ->
+  go_Conflicts c T_Int8 = rok false /\ go_Conflicts T_Int8 c = rok false.
+Proof. exact src_enum8_int8. Qed.
+Print Assumptions source_equiv_enum8_int8.
+
+Theorem source_equiv_enum16_int16 : forall c, go_Base c = rok T_Enum16 ->
+  go_Conflicts c T_Int16 = rok false /\ go_Conflicts T_Int16 c = rok false.
+Proof. exact src_enum16_int16. Qed.
+Print Assumptions source_equiv_enum16_int16.
+
+Theorem source_equiv_enum_enum : forall c b B, go_Base c = rok B -> go_Base b = rok B -> is_enum B = true ->
+  go_Conflicts c b = rok false.
+Proof. exact src_enum_enum. Qed.
+Print Assumptions source_equiv_enum_enum.
+
+Theorem source_equiv_decimal_alias : forall c e p a,
+  go_Base c = rok T_Decimal -> go_Elem c = rok e -> decimal_prec e = Some p -> decimal_alias p = Some a ->
+  go_Conflicts c a = rok false /\ go_Conflicts a c = rok false.
+Proof. exact src_decimal_alias. Qed.
+Print Assumptions source_equiv_decimal_alias.
+
+Theorem source_equiv_decimal_same_class : forall c b ec eb p q a,
+  go_Base c = rok T_Decimal -> go_Base b = rok T_Decimal -> go_Elem c = rok ec -> go_Elem b = rok eb ->
+  decimal_prec ec = Some p -> decimal_prec eb = Some q ->
+  decimal_alias p = Some a -> decimal_alias q = Some a -> go_Conflicts c b = rok false.
+Proof. exact src_decimal_same_class. Qed.
+Print Assumptions source_equiv_decimal_same_class.
+
+Theorem source_equiv_decimal_n_scale : forall c B, go_Base c = rok B -> go_isDecimalN B = true ->
+  go_Conflicts c B = rok false /\ go_Conflicts B c = rok false.
+Proof. exact src_decimal_n_scale. Qed.
+Print Assumptions source_equiv_decimal_n_scale.
+
+Theorem source_equiv_comma_spacing : forall c b B,
+  go_Base c = rok B -> go_Base b = rok B -> dec_clause B B = false ->
+  go_normalizeCommas c = go_normalizeCommas b -> go_Conflicts c b = rok false.
+Proof. exact src_comma_spacing. Qed.
+Print Assumptions source_equiv_comma_spacing.
+
+Theorem source_equiv_spaces_after_comma : forall B x y n,
+  index_byte 40 B = None -> B <> [] -> dec_clause B B = false ->
+  go_Conflicts (B ++ 40 :: (x ++ 44 :: y) ++ [41]) (B ++ 40 :: (x ++ 44 :: repeat 32 n ++ y) ++ [41]) = rok false.
+Proof. exact src_spaces_after_comma. Qed.
+Print Assumptions source_equiv_spaces_after_comma.
+
+Theorem source_equiv_timezone : forall c b B, go_Base c = rok B -> go_Base b = rok B -> is_dt B = true ->
+  go_Conflicts c b = rok false.
+Proof. exact src_timezone. Qed.
+Print Assumptions source_equiv_timezone.
+
+Theorem source_equiv_elementwise : forall W x y, is_wrapper W = true ->
+  go_Conflicts (wrap W x) (wrap W y) =
+  if bytes_eqb (go_normalizeCommas (wrap W x)) (go_normalizeCommas (wrap W y)) then rok false else go_Conflicts x y.
+Proof. exact src_elementwise. Qed.
+Print Assumptions source_equiv_elementwise.
+
+Theorem source_equiv_elementwise_compat : forall W x y, is_wrapper W = true ->
+  go_Conflicts x y = rok false -> go_Conflicts (wrap W x) (wrap W y) = rok false.
+Proof. exact src_elementwise_compat. Qed.
+Print Assumptions source_equiv_elementwise_compat.
+
+(* otherwise: different bases conflict ... *)
+Theorem source_conflicts_diff_base : forall c b cB bB,
+  go_Base c = rok cB -> go_Base b = rok bB -> cB <> bB ->
+  enum_int_clause cB bB c b = false -> dec_clause cB bB = false -> go_Conflicts c b = rok true.
+Proof. exact src_conflicts_diff_base. Qed.
+Print Assumptions source_conflicts_diff_base.
+
+(* ... and with the same base and no parameter rule, the strings must agree up to comma spacing *)
+Theorem source_conflicts_same_base : forall c b B,
+  go_Base c = rok B -> go_Base b = rok B -> dec_clause B B = false -> is_enum B = false ->
+  is_wrapper B = false -> is_dt B = false ->
+  go_Conflicts c b = rok (negb (bytes_eqb (go_normalizeCommas c) (go_normalizeCommas b))).
+Proof. exact src_conflicts_same_base. Qed.
+Print Assumptions source_conflicts_same_base.
+
+(* non-vacuity: the translated source, run *)
+Example c19_source_nonvacuous :
+  go_Base (s2b "Decimal(76, 38)") = rok (s2b "Decimal") /\ go_Elem (s2b "Decimal(76, 38)") = rok (s2b "76, 38") /\
+  go_Base (s2b ")(") = rok (s2b ")(") /\ go_Elem (s2b "x()") = rok [] /\
+  go_decimalDowncast (s2b "Decimal( 9 ,2)") = rok (s2b "Decimal32") /\
+  go_normalizeCommas (s2b "Map(String ,  String)") = s2b "Map(String,String)" /\
+  go_Conflicts (s2b "Decimal32(4)") (s2b "Decimal32") = rok false /\
+  go_Conflicts (s2b "Map(String,String)") (s2b "Map(String, String)") = rok false /\
+  go_Conflicts (s2b "Array(Enum8('a'=1))") (s2b "Array(Int8)") = rok false /\
+  go_Conflicts (s2b "Array(Int32)") (s2b "Array(Int64)") = rok true /\
+  go_Conflicts (s2b "Decimal(76, 38)") (s2b "Decimal256") = rok false /\
+  go_IsArray (s2b "Array(Int8)") = true.
+Proof. vm_compute. repeat split. Qed.
